@@ -767,9 +767,92 @@ def c13_cases(tier, ds):
     return out
 
 
+def bigfile_probe(tier, rep):
+    """C13 at a size no generated history reaches: files of several MiB compared by HASH.  One byte changes - at the
+    start, in the middle, at the very end - with size and modification time preserved: the reader of an input, the
+    function of a tampered output and a reader of that output must run again; touching the file must run nothing."""
+    import shutil
+    import tempfile
+    fb = realrun.load_fb()
+    FB = fb.FileBuilder
+    H = fb.FileComparison.HASH
+    problems = []
+    size = (3 << 20) + 17 if tier == 'quick' else (9 << 20) + 5
+    root = os.path.realpath(tempfile.mkdtemp(prefix='fbh_big_', dir=realrun.SANDBOX_BASE))
+    try:
+        cache = os.path.join(root, 'cache.gz')
+        inp = os.path.join(root, 'in.bin')
+        out = os.path.join(root, 'o', 'out.bin')
+        payload = bytes((i * 7 + 3) % 251 for i in range(4096)) * (size // 4096 + 1)
+        payload = payload[:size]
+        with open(inp, 'wb') as fh:
+            fh.write(payload)
+        ran = []
+
+        def reader(b):
+            ran.append('reader')
+            with b.read_binary(inp, H) as fh:
+                return len(fh.read())
+
+        def maker(b, fn):
+            ran.append('maker')
+            with open(fn, 'wb') as fh:
+                fh.write(payload)
+            os.utime(fn, ns=(1_650_000_000_000_000_000, 1_650_000_000_000_000_000))
+
+        def back(b):
+            ran.append('back')
+            b.declare_read(out, H)
+            return 1
+
+        def rootf(b):
+            b.subbuild('reader', reader)
+            b.build_file_with_comparison(out, H, 'maker', maker)
+            b.subbuild('back', back)
+        FB.build(cache, 'n', rootf)
+        del ran[:]
+        FB.build(cache, 'n', rootf)
+        if ran:
+            problems.append({'what': 'an unchanged rebuild with %d-byte files re-executed %s' % (size, ran)})
+
+        def flip(path, pos):
+            st = os.stat(path)
+            with open(path, 'r+b') as fh:
+                fh.seek(pos)
+                c = fh.read(1)
+                fh.seek(pos)
+                fh.write(bytes([c[0] ^ 0x55]))
+            os.utime(path, ns=(st.st_atime_ns, st.st_mtime_ns))
+        for where, pos in (('first byte', 0), ('middle', size // 2), ('last byte', size - 1)):
+            for target, expect in ((inp, {'reader'}), (out, {'maker'})):
+                flip(target, pos)
+                del ran[:]
+                FB.build(cache, 'n', rootf)
+                rep.count('bigfile_changes_checked')
+                if not expect <= set(ran):
+                    problems.append({'what': 'a change of the %s of a %d-byte %s compared by HASH (size and mtime preserved) went unnoticed: re-executed %s, expected at least %s'
+                                             % (where, size, 'input' if target == inp else 'output', sorted(set(ran)), sorted(expect)),
+                                     'how_to_replay': 'write %d bytes, build (read_binary HASH / build_file_with_comparison HASH / declare_read HASH), flip byte %d keeping size and mtime, build again' % (size, pos)})
+        # a pure timestamp change runs nothing
+        for target in (inp, out):
+            st = os.stat(target)
+            os.utime(target, ns=(st.st_atime_ns, st.st_mtime_ns + 12345))
+            del ran[:]
+            FB.build(cache, 'n', rootf)
+            if ran:
+                problems.append({'what': 'touching a %d-byte file compared by HASH re-executed %s' % (size, ran)})
+    except Exception as e:
+        problems.append({'what': 'big-file build raised %s: %s' % (type(e).__name__, str(e)[:120])})
+    finally:
+        shutil.rmtree(root, ignore_errors=True)
+    return problems
+
+
 def check_C13(tier):
-    return run_hist_prop('C13', tier, 13, 200, 10000, families=[gen.scen_reads, gen.scen_stamped, gen.scen_selfread], per_family=(120, 3000),
-                         extra_cases=c13_cases, prof=dict(gen.DEFAULT_PROFILE, p_hash=0.5))
+    return run_hist_prop('C13', tier, 13, 200, 10000, families=[gen.scen_reads, gen.scen_stamped, gen.scen_selfread, gen.scen_sibling_outputs], per_family=(120, 3000),
+                         extra_cases=c13_cases, prof=dict(gen.DEFAULT_PROFILE, p_hash=0.5),
+                         _after=lambda rep: [rep.violation('bigfile', {'property': 'C13', 'kind': 'failing-input', 'what': q},
+                                                           note=json.dumps(q, default=str)[:250]) for q in bigfile_probe(tier, rep)[:2]])
 
 
 def c15_cases(tier, ds):
